@@ -21,6 +21,8 @@ class C13(Prop):
     def gen(self, rng, i, tier):
         c = netgen.hand_network(rng) if rng.random() < 0.6 else netgen.generated_network(rng)
         c["calls"] = rng.randint(1, 4)
+        if rng.random() < 0.3:
+            c["jd_type"] = "list"
         return c
 
     def impl(self, case):
@@ -38,7 +40,10 @@ class C13(Prop):
             keys = [[nm, sorted(list(k) for k in m.excess_degree_keys[nm])] for nm in case["names"]]
             tn = list(m.topology_names)
         ov = JointExcessDegree.get_ejk(G)
-        return {"calls": calls, "excess_keys": keys, "topology_names": tn,
+        from gcmpy.names.network_names import NetworkNames as NN
+        untouched = all(list(G.nodes[v][NN.JOINT_DEGREE]) == list(row) for v, row in case["jd"]) and \
+            sorted(G.nodes()) == sorted(v for v, _ in case["jd"]) and G.number_of_edges() == len({frozenset(e[:2]) for e in case["edges"]})
+        return {"network_untouched": untouched, "calls": calls, "excess_keys": keys, "topology_names": tn,
                 "overall": sorted([list(k), rs(recover(v, 2 * len(case["edges"])))] for k, v in ov.items())}
 
     def request(self, case, obs):
@@ -57,6 +62,8 @@ class C13(Prop):
         if "exc" in obs:
             return [f"raised: {obs['exc']}: {obs.get('msg', '')[:80]}"]
         f = []
+        if not obs["network_untouched"]:
+            f.append("network-mutated: extracting the matrices changed the network's annotations (or its vertices / edges)")
         first = obs["calls"][0]
         for n, call in enumerate(obs["calls"][1:], 2):
             if call != first:
